@@ -259,6 +259,8 @@ def run(repo, rep):
     if _cc16(repo, rep, "C16-n") < 20:
         raise AnalysisError("Operation.clone: fewer than 20 members checked")
     rep.clause("C16-o", "constraints decide what their report line says: 'new_axis_mask and shrink_axis_mask cannot both be set' (evaluated on a grid of mask pairs); 'the sum of the weights' is taken per output channel over the three other axes of the HWIO volume")
+    rep.clause("C16-p", "the generic tensor constraints look at every input of a concatenating operator (CONCATENATION, PACK): operands examined per constraint, resolved through the accessor bodies and the operand index table of the operator type, against the inputs the lowering reads")
+    rule_round10(repo, rep)
     rule_round9(repo, rep)
     rule_round8(repo, rep)
     _so, _sem = repo.mod("tflite_supported_operators"), repo.mod("tflite_model_semantic")
@@ -898,3 +900,264 @@ def rule_round9(repo, rep):
     got = try_fold(ax[0], default=None) if ax else None
     rep.check(isinstance(got, (tuple, list)) and sorted(got) == [0, 1, 2], "C16-o", gsite, f"`{norm(sums[0])[:70]}` sums |w| over H, W and the input channels (one sum per output channel)",
               f"axis = {got!r}: the sums are no longer per output channel (HWIO): a 1x1 kernel over 65025 channels of -128 (sum 8323200 > 8323072) is placed on the NPU")
+
+
+# ------------------------------------------------------------------ round 10: operand coverage of the generic tensor constraints
+
+
+def _index_tables(repo):
+    """module-level `NAME = TensorIndices([..], [..], [..])` of operation.py -> {NAME: (ifms, weights, biases)}; Op member -> NAME."""
+    m = repo.mod("operation")
+    tabs = {}
+    for st in m.tree.body:
+        if isinstance(st, ast.Assign) and isinstance(st.value, ast.Call) and call_name(st.value) == "TensorIndices" and isinstance(st.targets[0], ast.Name):
+            vals = [try_fold(a, default=None) for a in st.value.args]
+            if len(vals) == 3 and all(isinstance(v, list) for v in vals):
+                tabs[st.targets[0].id] = tuple(vals)
+    per_op = {}
+    for st in m.cls("Op").body:
+        if isinstance(st, ast.Assign) and isinstance(st.value, ast.Call) and call_name(st.value) == "OperatorInfo" and isinstance(st.targets[0], ast.Name):
+            nm = "NNG_NO_INDICES"
+            for k in st.value.keywords:
+                if k.arg == "indices":
+                    nm = norm(k.value)
+            if len(st.value.args) >= 2:
+                nm = norm(st.value.args[1])
+            per_op[st.targets[0].id] = nm
+    if len(tabs) < 8 or len(per_op) < 100:
+        raise AnalysisError("operand index tables of operation.py not recognised")
+    return tabs, per_op
+
+
+ALL_INPUTS = "every input"
+
+
+class _Examined:
+    """Which operands of an operator of type X a constraint looks at: a set of input indices, 'OUT', or ALL_INPUTS. Expressions are
+    evaluated with `op.type` fixed to X: accessors are resolved through the property bodies of Operation and the operand index table of X."""
+
+    def __init__(self, repo, X):
+        self.repo, self.X = repo, X
+        self.m = repo.mod("operation")
+        self.tabs, self.per_op = _index_tables(repo)
+        if X not in self.per_op or self.per_op[X] not in self.tabs:
+            raise AnalysisError(f"operand index table of Op.{X} not found")
+        self.tab = dict(zip(("ifms", "weights", "biases"), self.tabs[self.per_op[X]]))
+        self.ops = op_table(repo)
+
+    def type_test(self, e, selfname):
+        """truth of a test on the operator type, or None"""
+        if isinstance(e, ast.UnaryOp) and isinstance(e.op, ast.Not):
+            v = self.type_test(e.operand, selfname)
+            return None if v is None else not v
+        if isinstance(e, ast.BoolOp):
+            vs = [self.type_test(v, selfname) for v in e.values]
+            if isinstance(e.op, ast.And):
+                return False if False in vs else (None if None in vs else True)
+            return True if True in vs else (None if None in vs else False)
+        if isinstance(e, ast.Compare) and len(e.ops) == 1 and norm(e.left) == f"{selfname}.type":
+            r = e.comparators[0]
+            if isinstance(e.ops[0], (ast.Eq, ast.NotEq)) and (dotted(r) or "").startswith("Op."):
+                return ((dotted(r)[3:] == self.X)) == isinstance(e.ops[0], ast.Eq)
+            if isinstance(e.ops[0], (ast.In, ast.NotIn)):
+                elts = None
+                if isinstance(r, (ast.Tuple, ast.List, ast.Set)):
+                    elts = r.elts
+                if elts is not None and all((dotted(x) or "").startswith("Op.") for x in elts):
+                    return (self.X in {dotted(x)[3:] for x in elts}) == isinstance(e.ops[0], ast.In)
+            return None
+        if isinstance(e, ast.Call) and isinstance(e.func, ast.Attribute) and norm(e.func.value) == f"{selfname}.type" and not e.args:
+            try:
+                return bool(eval_pred(self.repo, self.ops, e.func.attr, self.X))
+            except AnalysisError:
+                return None
+        return None
+
+    def accessor(self, name, depth):
+        f = self.m.func(f"Operation.{name}")
+        if f is None:
+            return None
+        return self.returns(f, "self", depth + 1)
+
+    def returns(self, f, selfname, depth):
+        if depth > 5:
+            return None
+        out = set()
+
+        def walk(body):
+            for st in body:
+                if isinstance(st, ast.Expr) and isinstance(st.value, ast.Constant):
+                    continue
+                if isinstance(st, ast.If):
+                    t = self.type_test(st.test, selfname)
+                    if t is True:
+                        return walk(st.body) or False
+                    if t is False:
+                        r = walk(st.orelse)
+                        if r:
+                            return True
+                        continue
+                    return None
+                if isinstance(st, ast.Return):
+                    v = self.ev(st.value, selfname, {}, depth)
+                    if v is None:
+                        return None
+                    out.update(v)
+                    return True
+                if isinstance(st, (ast.Assign, ast.AugAssign, ast.Assert)):
+                    continue
+                return None
+            return False
+
+        r = walk(f.body)
+        return out if r else None
+
+    def ev(self, e, opname, env, depth=0):
+        """set of operands, or None when not recognised"""
+        if e is None:
+            return None
+        if isinstance(e, ast.Name):
+            return env.get(e.id)
+        if isinstance(e, (ast.ListComp, ast.GeneratorExp, ast.SetComp)) and len(e.generators) == 1 and norm(e.elt) == norm(e.generators[0].target):
+            return self.ev(e.generators[0].iter, opname, env, depth)
+        if isinstance(e, (ast.Tuple, ast.List)):
+            out = set()
+            for x in e.elts:
+                if isinstance(x, ast.Starred):
+                    v = self.ev(x.value, opname, env, depth)
+                else:
+                    v = self.ev_one(x, opname, depth)
+                if v is None:
+                    return None
+                out |= v
+            return out
+        if isinstance(e, ast.BinOp) and isinstance(e.op, ast.Add):
+            l, r = self.ev(e.left, opname, env, depth), self.ev(e.right, opname, env, depth)
+            return None if l is None or r is None else l | r
+        if isinstance(e, ast.IfExp):
+            t = self.type_test(e.test, opname)
+            if t is None:
+                return None
+            return self.ev(e.body if t else e.orelse, opname, env, depth)
+        if isinstance(e, ast.Call) and call_name(e) in ("tuple", "list") and len(e.args) == 1:
+            return self.ev(e.args[0], opname, env, depth)
+        if isinstance(e, ast.Call) and call_name(e) == "filter" and len(e.args) == 2 and norm(e.args[0]) == "None":
+            return self.ev(e.args[1], opname, env, depth)
+        if isinstance(e, ast.Attribute) and norm(e.value) == opname:
+            if e.attr == "inputs":
+                return {ALL_INPUTS}
+            if e.attr == "outputs":
+                return {"OUT"}
+        if isinstance(e, ast.Call) and isinstance(e.func, ast.Attribute) and norm(e.func.value) == opname and not e.args:
+            return self.accessor(e.func.attr, depth)
+        if isinstance(e, ast.Subscript) and isinstance(e.slice, ast.Slice) and norm(e.value) == f"{opname}.inputs" and e.slice.upper is None and e.slice.step is None:
+            lo = try_fold(e.slice.lower, default=None) if e.slice.lower is not None else 0
+            return {ALL_INPUTS} if lo == 0 else ({f"inputs[{lo}:]"} if isinstance(lo, int) else None)
+        return None
+
+    def ev_one(self, e, opname, depth):
+        """a single tensor: op.ifm / op.ifm2 / op.weights / op.bias / op.ofm / op.inputs[k] / op.outputs[0]"""
+        if isinstance(e, ast.Attribute) and norm(e.value) == opname:
+            f = self.m.func(f"Operation.{e.attr}")
+            if f is None:
+                return None
+            rets = [s for s in ast.walk(f) if isinstance(s, ast.Return)]
+            if len(rets) != 1:
+                return None
+            r = rets[0].value
+            if isinstance(r, ast.Call) and norm(r.func) == "self.get_input" and len(r.args) == 2 and norm(r.args[0]).startswith("self.type.info.indices."):
+                fld, k = norm(r.args[0]).rsplit(".", 1)[1], try_fold(r.args[1], default=None)
+                if fld not in self.tab or not isinstance(k, int):
+                    return None
+                return {self.tab[fld][k]} if k < len(self.tab[fld]) else set()
+            if isinstance(r, ast.IfExp) and norm(r.body) == "self.outputs[0]":
+                return {"OUT"}
+            return None
+        if isinstance(e, ast.Subscript) and norm(e.value) == f"{opname}.inputs":
+            k = try_fold(e.slice, default=None)
+            return {k} if isinstance(k, int) and k >= 0 else None
+        if isinstance(e, ast.Subscript) and norm(e.value) == f"{opname}.outputs":
+            return {"OUT"}
+        return None
+
+
+def rule_round10(repo, rep):
+    """(p) A concatenating operator hands every one of its inputs to the NPU lowering (Operation.get_concat_inputs_axis returns
+    `self.inputs` from its first data operand on). The generic constraints that quantify over the operator's tensors ('Tensors must be
+    of type ..', 'IFM Tensor batch size must be 1', 'Input(s), Output and Weight tensors must have quantization parameters' ..) must
+    therefore look at every input of such an operator, not at the two operand slots its index table names."""
+    opm = repo.mod("operation")
+    f = opm.func("Operation.get_concat_inputs_axis")
+    pred = opm.func("Op.is_concat_op")
+    if f is None or pred is None:
+        raise AnalysisError("Operation.get_concat_inputs_axis / Op.is_concat_op not found")
+    starts = {}
+    for st in ast.walk(f):
+        if isinstance(st, ast.If) and isinstance(st.test, ast.Compare) and norm(st.test.left) == "self.type" and isinstance(st.test.ops[0], ast.Eq):
+            X = (dotted(st.test.comparators[0]) or "")[3:]
+            for a in st.body:
+                if isinstance(a, ast.Assign) and norm(a.targets[0]) == "inputs":
+                    v = a.value
+                    if norm(v) == "self.inputs":
+                        starts[X] = 0
+                    elif isinstance(v, ast.Subscript) and norm(v.value) == "self.inputs" and isinstance(v.slice, ast.Slice) and v.slice.upper is None:
+                        starts[X] = try_fold(v.slice.lower, default=None)
+                    else:
+                        raise AnalysisError(f"get_concat_inputs_axis: data operands of Op.{X} not recognised: {norm(v)}")
+    if len(starts) < 3:
+        raise AnalysisError("get_concat_inputs_axis: fewer than three operator types recognised")
+    ops = op_table(repo)
+    produced = builtin_names(repo)
+    variadic = sorted(X for X in ops if eval_pred(repo, ops, "is_concat_op", X) and X in produced)
+    if len(variadic) < 2:
+        raise AnalysisError(f"concatenating operators produced by the reader: {variadic} (expected CONCATENATION and PACK)")
+    n = 0
+    for modname, clsname, path in (("tflite_supported_operators", "TFLiteSupportedOperators", SO), ("tflite_model_semantic", "TFLiteSemantic", SEM)):
+        mod = repo.mod(modname)
+        generic, _spec, exc, _se = registrations(repo, mod, clsname)
+        for X in variadic:
+            start = starts.get(X, starts.get(X + "Reshaped"))
+            if start is None:
+                raise AnalysisError(f"first data operand of Op.{X} unknown")
+            exd = _Examined(repo, X)
+            for c in generic:
+                if c in exc.get(X, []):
+                    continue
+                fn = mod.func(f"{clsname}.{c}")
+                if fn is None:
+                    raise AnalysisError(f"{clsname}.{c} not found")
+                opname = fn.args.args[-1].arg
+                env, looked, unknown = {}, set(), []
+                # straight-line pass: assignments of tensor collections, then every iteration over one
+                for st in ast.walk(fn):
+                    if isinstance(st, ast.If) and isinstance(st.test, ast.UnaryOp) and isinstance(st.test.op, ast.Not) and isinstance(st.test.operand, ast.Name):
+                        # `if not tensors: tensors = ...` is a fallback for operators without operand roles: it adds nothing when the roles exist
+                        for a in st.body:
+                            for sub in ast.walk(a):
+                                sub._fallback = True
+                for st in ast.walk(fn):
+                    if isinstance(st, ast.Assign) and isinstance(st.targets[0], ast.Name) and not getattr(st, "_fallback", False):
+                        v = exd.ev(st.value, opname, env)
+                        if v is not None:
+                            env[st.targets[0].id] = v
+                iters = [s.iter for s in ast.walk(fn) if isinstance(s, ast.For) and not getattr(s, "_fallback", False)]
+                iters += [g.iter for s in ast.walk(fn) if isinstance(s, (ast.ListComp, ast.GeneratorExp, ast.SetComp)) and not getattr(s, "_fallback", False) for g in s.generators]
+                for it in iters:
+                    v = exd.ev(it, opname, env)
+                    if v is not None:
+                        looked |= v
+                    elif any(isinstance(x, ast.Name) and x.id == opname for x in ast.walk(it)) and any(
+                            isinstance(x, ast.Attribute) and (x.attr in ("inputs", "ifm", "ifm2") or x.attr.startswith("get_ifm")) for x in ast.walk(it)):
+                        unknown.append(norm(it))
+                if unknown:
+                    raise AnalysisError(f"{clsname}.{c}: tensor collection `{unknown[0][:80]}` not recognised for Op.{X}")
+                if not (looked - {"OUT"}):
+                    continue  # the constraint does not quantify over input tensors
+                n += 1
+                ok = ALL_INPUTS in looked or f"inputs[{start}:]" in looked
+                shown = sorted(str(x) for x in looked)
+                rep.check(ok, "C16-p", f"{path}:{clsname}.{c}", f"Op.{X}: the constraint looks at every input (the lowering reads inputs[{start}:])",
+                          f"looks at operands {shown} only (index table {exd.per_op[X]} = {exd.tab['ifms']}): the other inputs of a {produced[X]} reach the NPU unchecked "
+                          "(batch > 1, float32 or unquantised operand 0: placed on the NPU / KeyError instead of CPU placement)")
+    if n < 10:
+        raise AnalysisError(f"C16-p: only {n} (constraint, operator) pairs examined")
